@@ -33,6 +33,7 @@ type Engine struct {
 	LoadErrs  []string
 	lockSecMu sync.Mutex
 	lockSecs  map[string]map[*ssa.Function]bool // monitor name -> functions that lock its mutex
+	holderMemo map[*ssa.Function]bool
 }
 
 // Load loads the given package patterns of /repo (working tree, tag verif) and all contracts.
